@@ -21,6 +21,22 @@ theorem new_level_is_global_downscale (a : Axis) (hc : compatible a) (p : Nat) (
     sourceStart a p = .ok (specStart a p) :=
   axis_correct a hc p hp
 
+/-- NEVER SILENTLY WRONG: for ALL sizes and ALL chunk sizes of the two levels — compatible or not,
+    powers of two or not — if the copy schedule of every new chunk along the axis completes without
+    raising, then every voxel of the new level is computed from exactly the old voxels that the
+    global downscaling uses. (A level is either right or the command fails; the repaired defect F24
+    was the one family of sizes for which the unchanged code did neither.) -/
+theorem completed_level_is_correct (a : Axis)
+    (hall : ∀ n, a.nc * n < a.ns → ∃ parts, plan a n = .ok parts) (p : Nat) (hp : p < a.ns) :
+    sourceStart a p = .ok (specStart a p) :=
+  completed_is_correct a hall p hp
+
+/-- … and when there are several new chunks along an axis, completing without an error is possible
+    ONLY for compatible chunk sizes: the first chunk's schedule already decides it. -/
+theorem success_requires_compatible_sizes (a : Axis) (parts : List Part) (h0 : plan a 0 = .ok parts)
+    (hN : a.nc < a.ns) : compatible a :=
+  plan_zero_ok_compat a parts h0 hN
+
 /-- the source block of a new voxel lies inside ONE old chunk, so downscaling chunk by chunk with a
     block-local downscaler gives the same value as downscaling the whole level -/
 theorem source_block_in_one_chunk (f k p : Nat) (hf : f = 1 ∨ f = 2) (hk : 0 < k) :
